@@ -30,7 +30,7 @@ prop("C06", "exploration",
      TB + "serde derive; the domain restrictions listed in the evidence file's assumptions are taken from the crate documentation.",
      "runtime monitor: serialize/deserialize round trip with equality oracle")
 prop("C07", "exploration",
-     "Runtime totality monitoring of the deserializer: token-level mutants, truncations at every byte and token soup for about 150 target types and both entry points run under catch_unwind, plus documents in legacy encodings with names outside ASCII; a stall detector on logical progress reports cases that do not return and every worker caps its address space so that a runaway allocation ends as a reported death. A second layer (novl) repeats the workload without the overlapped-lists feature. Thorough tier repeats on plain-release, ASan and Miri builds.",
+     "Runtime totality monitoring of the deserializer: token-level mutants, truncations at every byte and token soup for about 150 target types and both entry points run under catch_unwind, plus documents in legacy encodings with names outside ASCII; a stall detector on logical progress reports cases that do not return and every worker caps its address space so that a runaway allocation ends as a reported death. A second layer (novl) repeats the workload without the overlapped-lists feature. Thorough tier repeats on plain-release, ASan and Miri builds. Also: from_str through a Deserializer with an event buffer limit of 1..=12, other spellings of values in the mutator, and up to four values in a row from one Deserializer (from_str and from_reader) until the first error; calls made after an error are counted as an observation, not judged (DESIGN 6.1).",
      TB + "the stall detector thresholds (30 s / 90 s without a finished case).",
      "runtime monitor: catch_unwind + stall detector over mutated documents; sanitizer layers in the thorough tier")
 prop("C08", "exploration",
@@ -58,11 +58,11 @@ prop("C13", "exploration",
      TB + "the reader as a tool; the Name validator written from the XML 1.1 productions.",
      "runtime monitor: well-formedness via the reader, independent Name validator, non-interference (twin documents)")
 prop("C14", "exploration",
-     "Runtime relational monitoring: from_str vs from_reader over ChunkedRead (piece sizes 1,2,3,7, whole, random cut sets) on valid, mutated, truncated and soup documents for about 150 owned target types (and a second layer without the overlapped-lists feature); Ok values must be equal, otherwise both must fail.",
+     "Runtime relational monitoring: from_str vs from_reader over ChunkedRead (piece sizes 1,2,3,7, whole, random cut sets) on valid, mutated, truncated and soup documents for about 150 owned target types (and a second layer without the overlapped-lists feature); Ok values must be equal, otherwise both must fail. Also: several values in a row from one Deserializer::from_str / from_reader over documents written one after the other: both entry points must agree on every result up to and including the first error.",
      TB + "error values are not compared.",
      "runtime monitor: relational comparison of two deserializer entry points under chunkings")
 prop("C15", "exploration",
-     "Runtime metamorphic monitoring: 20 information-preserving rewrites are applied to the serializer's output, and to hand-written presentations of it in which absent optional children are present with xsi:nil=\"true\" (every site for documents of <=12 tokens, random compositions beyond), and the rewritten document must deserialize to the same value.",
+     "Runtime metamorphic monitoring: 20 information-preserving rewrites are applied to the serializer's output, and to hand-written presentations of it in which absent optional children are present with xsi:nil=\"true\" or a piece of a text is a reference to an entity declared in the document's own DOCTYPE (read through Deserializer::from_str_with_resolver / with_resolver with a resolver that captures DOCTYPE declarations) (every site for documents of <=12 tokens, random compositions beyond), and the rewritten document must deserialize to the same value.",
      TB + "the element naming convention of the family as site table; R_tok/R_attr as tools.",
      "runtime monitor: metamorphic rewrites with value-equality oracle")
 prop("C16", "exploration",
